@@ -10,7 +10,7 @@ ground-truth value x indent {0,2,7} x unwrap, output parsed by Python's json
 module (independent strict reader, exact integers); JSON -> YAML -> JSON round
 trip; unrepresentable values (.inf/.nan) must be an error.
 """
-import json, math, os, re
+import json, math, os, re, time
 from concurrent.futures import ThreadPoolExecutor
 import vlib
 
@@ -267,7 +267,7 @@ class GT:
 
 
 PLAIN_SAFE = re.compile(r"^[A-Za-z_][A-Za-z0-9_./-]*$")
-RESOLVES = re.compile(r"^(~|null|Null|NULL|true|True|TRUE|false|False|FALSE|y|Y|yes|Yes|YES|n|N|no|No|NO|on|On|ON|off|Off|OFF|\.inf|\.Inf|\.INF|\.nan|\.NaN|\.NAN)$")
+RESOLVES = re.compile(r"^(<<|=|~|null|Null|NULL|true|True|TRUE|false|False|FALSE|y|Y|yes|Yes|YES|n|N|no|No|NO|on|On|ON|off|Off|OFF|\.inf|\.Inf|\.INF|\.nan|\.NaN|\.NAN)$")
 
 
 def yaml_dq(s):
@@ -459,10 +459,19 @@ def diff(g, got, path="$"):
         for i, (x, y) in enumerate(zip(g.items, got)):
             out += diff(x, y, "%s[%d]" % (path, i))
         return out
-    if not isinstance(got, Pairs) or [k for k, _ in got] != [k for k, _ in g.items]:
+    if not isinstance(got, Pairs):
         return [(path, "o", [k for k, _ in g.items], got)]
     out = []
-    for (k, x), (_, y) in zip(g.items, got):
+    items = g.items
+    if len(got) != len(items) and [k for k, _ in got] == [k for k, _ in items if k != "<<"]:
+        # a string key << was treated as a merge key and dropped
+        out.append((path, "merge", "<<", None))
+        items = [(k, x) for k, x in items if k != "<<"]
+    if len(got) != len(items):
+        return [(path, "o", [k for k, _ in g.items], got)]
+    for (k, x), (k2, y) in zip(items, got):
+        if k != k2:
+            out.append((path + ".<key>", "s", k, k2))
         out += diff(x, y, "%s.%s" % (path, k))
     return out
 
@@ -473,6 +482,38 @@ def is_bigint_float_signature(d):
     if kind != "i" or isinstance(got, bool) or not isinstance(got, (int, float)):
         return False
     return abs(want) > TWO53 and float(got) == f64_of_int(want) and got != want
+
+
+def finding_of(d, direction):
+    """known-finding key of one leaf difference (exact signatures), or None"""
+    _, kind, want, got = d
+    if kind == "merge":
+        return "string-key-merge-dropped"
+    if kind == "i" and is_bigint_float_signature(d):
+        return "json-int-above-2p53" if direction == "json" else None
+    if direction == "json" and kind == "s" and isinstance(got, str) and want.startswith("\n") and got == want[1:]:
+        return "yaml-literal-leading-newline-lost"
+    return None
+
+
+def strings_of(g):
+    if g.kind == "s":
+        return [g.val]
+    if g.kind == "a":
+        return [s for x in g.items for s in strings_of(x)]
+    if g.kind == "o":
+        return [s for k, x in g.items for s in [k] + strings_of(x)]
+    return []
+
+
+def settle(chk, ds, direction, detail):
+    """True if every difference is a listed known finding (which is then reported)"""
+    keys = [finding_of(d, direction) for d in ds]
+    if not ds or any(k is None or not chk.is_known(k) for k in keys):
+        return False
+    for k in sorted(set(keys)):
+        chk.known_finding(k, detail)
+    return True
 
 
 def has_kind(g, kinds):
@@ -559,7 +600,7 @@ def replay(rp):
         return json_equal(want, got)
     if kind == "json_roundtrip":
         src = vlib.b64d(rp["input_b64"])
-        rc, y, err = vlib.run_yq(["-p=json", "-o=yaml", "."], stdin=src)
+        rc, y, err = vlib.run_yq(["-p=json", "-o=yaml", "--unwrapScalar=false", "."], stdin=src)
         if rc != 0:
             return False
         rc, j, err = vlib.run_yq(["-o=json", "."], stdin=y)
@@ -602,6 +643,7 @@ def run(chk):
         broken.append("proof obligations of Props/C06.v do not check: " + plog[-800:])
     disagreements = []
 
+    vlib.log("C06 section 0 at %.1fs" % (time.time() - chk.t0))
     # ---------------- 1. encoder correspondence (float-free node trees) ----------------
     n_enc = 12000 if thorough else 1400
     nodes = []
@@ -650,6 +692,7 @@ def run(chk):
             disagreements.append(("encoder", node_coq(nodes[items[j][0]])[:400], cfg, items[j][1][:200], mo[:200] if isinstance(mo, bytes) else mo))
     chk.extra["encoder_cases_compared"] = n_enc_cmp
 
+    vlib.log("C06 section 1 at %.1fs" % (time.time() - chk.t0))
     # ---------------- 2. reader correspondence (valid JSON texts) ----------------
     n_dec = 8000 if thorough else 900
     texts = [t for t in NUM_TEXTS] + ["[" + t + "]" for t in NUM_TEXTS[:20]]
@@ -673,7 +716,7 @@ def run(chk):
             chk.violation({"kind": "decoder_crash", "input_b64": vlib.b64e(t), "response": r}, True, "the JSON decoder panicked/timed out: %r" % (r,))
             continue
         if r.get("err"):
-            ib = b"ERR:rng" if "value out of range" in r["err"] else b"ERR:syn"
+            ib = b"ERR:syn"          # one error class: the model's reader does not tell range from syntax errors
         else:
             ib = vlib.b64d(r["out_b64"])
         cases.append((vlib.coq_str(t), ib))
@@ -687,6 +730,7 @@ def run(chk):
             disagreements.append(("reader", utexts[idx[j]][:300], None, cases[j][1][:200], mo[:200] if isinstance(mo, bytes) else mo))
     chk.extra["reader_cases_compared"] = len(cases)
 
+    vlib.log("C06 section 2 at %.1fs" % (time.time() - chk.t0))
     # ---------------- 3. direct oracle: YAML -> JSON on the binary ----------------
     n_or = 2500 if thorough else 260
     gts = [GT("a", items=[GT("s", s) for s in LOOKALIKES]),
@@ -712,6 +756,12 @@ def run(chk):
     layouts = {}
     for (g, ytext, indent, unwrap, args), (rc, out, err) in zip(meta, results):
         st, why = judge_yaml_to_json(g, unwrap, rc, out, err)
+        if st == "fail" and rc == 0 and not (unwrap and g.kind in "sifbn"):
+            try:
+                if settle(chk, diff(g, py_parse(out)), "yaml", "%s -> %s" % (ytext[:80].strip(), out.decode("utf-8", "replace")[:80].strip())):
+                    st = "ok"
+            except Exception:  # noqa
+                pass
         chk.count(("y2j", ytext, indent, unwrap), nontrivial=g.kind in "ao" and bool(g.items),
                   sample={"yaml": ytext[:160], "indent": indent, "unwrap": unwrap, "json": out.decode("utf-8", "replace")[:160]} if 40 < len(ytext) < 160 else None)
         if st == "fail":
@@ -726,6 +776,7 @@ def run(chk):
             layouts[indent] = layouts.get(indent, 0) + 1
     chk.extra["yaml2json_runs"] = len(jobs)
 
+    vlib.log("C06 section 3 at %.1fs" % (time.time() - chk.t0))
     # ---------------- 4. unrepresentable values must be an error; out-of-range integers ----------------
     must_err = []
     for t in [".inf", "-.inf", "+.inf", ".Inf", ".INF", "-.Inf", "-.INF", ".nan", ".NaN", ".NAN"]:
@@ -762,6 +813,7 @@ def run(chk):
                                    "expected_json_b64": vlib.b64e('{"a":%s}' % t), "raw_expected_b64": None, "impl_out": out.decode("utf-8", "replace")}, True,
                                   "YAML integer %s came out as %r" % (t, out[:80]))
 
+    vlib.log("C06 section 4 at %.1fs" % (time.time() - chk.t0))
     # ---------------- 5. JSON -> YAML -> JSON round trip on the binary ----------------
     n_rt = 2000 if thorough else 220
     rt_docs = [GT("a", items=[GT("i", z, str(z)) for z in (0, 1, -1, TWO53 - 1, TWO53, -TWO53)]),
@@ -774,7 +826,8 @@ def run(chk):
         rt_docs.append(g)
     big_docs = [GT("i", TWO53 + 1, str(TWO53 + 1)), GT("a", items=[GT("i", z, str(z)) for z in (TWO53 + 1, -(TWO53 + 1), TWO63 - 1, 2 ** 60 + 1)])]
     srcs = [gt_json(g).encode("utf-8") for g in rt_docs + big_docs]
-    first = run_yq_many([(["-p=json", "-o=yaml", "."], s) for s in srcs])
+    # scalar unwrapping (default on for -o=yaml) only matters for a top-level scalar; it is off here and replayed as a known finding below
+    first = run_yq_many([(["-p=json", "-o=yaml", "--unwrapScalar=false", "."], s) for s in srcs])
     second = run_yq_many([(["-o=json", "-I0", "."], y if rc == 0 else b"") for (rc, y, e) in first])
     n_fail = 0
     for g, src, (rc1, y, e1), (rc2, j, e2) in zip(rt_docs + big_docs, srcs, first, second):
@@ -795,8 +848,11 @@ def run(chk):
                 why = "output is not valid JSON (%s)" % e
         if why is None:
             continue
-        if ds and all(is_bigint_float_signature(d) for d in ds) and chk.is_known("json-int-above-2p53"):
-            chk.known_finding("json-int-above-2p53", "%s -> %s" % (src.decode()[:60], j.decode().strip()[:60]))
+        if ds and settle(chk, ds, "json", "%s -> %s" % (src.decode()[:60], j.decode("utf-8", "replace").strip()[:60])):
+            continue
+        if rc1 == 0 and rc2 != 0 and b"found a tab character where an indentation space is expected" in e2 \
+                and any(x.startswith("\t") and "\n" in x for x in strings_of(g)) and chk.is_known("yaml-literal-tab-first-line-unreadable"):
+            chk.known_finding("yaml-literal-tab-first-line-unreadable", "%s -> %s" % (src.decode()[:60], y.decode("utf-8", "replace")[:60]))
             continue
         n_fail += 1
         if n_fail <= 5:
@@ -805,6 +861,25 @@ def run(chk):
                           "JSON -> YAML -> JSON: " + why)
     chk.extra["json_roundtrip_docs"] = len(srcs)
 
+    # known finding: with unwrapping on a top-level string is printed raw (by design of -r), which is neither JSON nor round-trippable
+    for src, via_yaml in (('"123"', True), ('""', True), ('"a\\"b"', False)):
+        if via_yaml:
+            rc, y, _ = vlib.run_yq(["-p=json", "-o=yaml", "."], stdin=src.encode())
+            rc2, j, _ = vlib.run_yq(["-o=json", "-I0", "."], stdin=y)
+        else:
+            rc2, j, _ = vlib.run_yq(["-p=json", "-o=json", "-r", "."], stdin=src.encode())
+        same = False
+        try:
+            same = rc2 == 0 and json_equal(py_parse(src.encode()), py_parse(j))
+        except Exception:  # noqa
+            same = False
+        if not same:
+            if chk.is_known("unwrap-toplevel-scalar-raw"):
+                chk.known_finding("unwrap-toplevel-scalar-raw", "%s -> %s" % (src, j.decode("utf-8", "replace").strip()))
+            else:
+                chk.violation({"kind": "json_roundtrip", "input_b64": vlib.b64e(src), "input": src}, True, "top-level string printed raw with unwrapping on: %s -> %r" % (src, j[:60]))
+
+    vlib.log("C06 section 5 at %.1fs" % (time.time() - chk.t0))
     # ---------------- verdict ----------------
     if disagreements and not chk.violations:
         d = disagreements[0]
